@@ -314,7 +314,12 @@ impl InnerField {
             if let Some(b_len) = b_len {
                 let b_size = boundary.len() + b_len;
                 if len < b_size {
-                    return Poll::Pending;
+                    // nothing more will arrive to complete (or rule out) the delimiter
+                    return if payload.eof {
+                        Poll::Ready(Some(Err(Error::Incomplete)))
+                    } else {
+                        Poll::Pending
+                    };
                 } else if &payload.buf[b_len..b_size] == boundary.as_bytes() {
                     // found boundary
                     return Poll::Ready(None);
@@ -330,6 +335,10 @@ impl InnerField {
                 if cur + 4 > len {
                     if cur > 0 {
                         Poll::Ready(Some(Ok(payload.buf.split_to(cur).freeze())))
+                    } else if payload.eof {
+                        // the body ends inside what could only be content followed by a
+                        // delimiter; waiting would never end
+                        Poll::Ready(Some(Err(Error::Incomplete)))
                     } else {
                         Poll::Pending
                     }
